@@ -78,7 +78,9 @@ Ltac fl I :=
   try (split; intros; try congruence; auto);
   try (useA A; repeat split; congruence);
   try (repeat split; congruence);
-  try (match goal with H : t_out _ = None |- _ => rewrite H in *; cbn in *; congruence end).
+  try (match goal with H : t_out _ = None |- _ => rewrite H in *; cbn in *; congruence end);
+  try (match goal with t : tracker |- _ =>
+         destruct (t_sent t) eqn:?, (t_acked t) eqn:?, (t_cancel t) eqn:?; cbn in *; intuition congruence end).
 
 Lemma flags_close t : flags_inv t -> flags_inv (fst (h_close t)).
 Proof. intros I. unfold h_close. fl I. Qed.
@@ -98,3 +100,224 @@ Lemma flags_send_cancel t cl : flags_inv t -> flags_inv (fst (h_send_cancel t cl
 Proof. intros I. unfold h_send_cancel. fl I. Qed.
 Lemma flags_recv_iter t : flags_inv t -> flags_inv (fst (h_recv_iter t)).
 Proof. intros I. unfold h_recv_iter. fl I. Qed.
+
+(* ------------------------------------------------------------------ *)
+(* projections through the state updaters                              *)
+
+Lemma tk_bcast s : tk (bcast s) = tk s. Proof. reflexivity. Qed.
+Lemma tk_bcast_if' b s : tk (bcast_if b s) = tk s. Proof. destruct b; reflexivity. Qed.
+
+Lemma step_flags c s a s' o : flags_inv (tk s) -> step c s a = Some (s', o) -> flags_inv (tk s').
+Proof.
+  intros I St. destruct a; cbn [step] in St.
+  - destruct (conn s); inversion St; subst; exact I.
+  - destruct (conn s) as [cn|]; [|discriminate]. destruct (c_rerr cn); [discriminate|].
+    destruct (reader c r (tk s)) as [[t' b]|k|] eqn:ER; [| |discriminate].
+    2:{ inversion St; subst. exact I. }
+    inversion St; subst. rewrite tk_bcast_if'. cbn [tk set_tk].
+    destruct r as [n|[|]|[m|]|n|n| |]; cbn [reader] in ER; try discriminate.
+    + injection ER as ER. replace t' with (fst (h_open n (tk s))) by (rewrite ER; reflexivity). apply flags_open, I.
+    + injection ER as ER. replace t' with (fst (h_close (tk s))) by (rewrite ER; reflexivity). apply flags_close, I.
+    + inversion ER; subst. exact I.
+    + unfold obind in ER. destruct (check_recv (peer_key c) m) as [[]| |]; inversion ER; subst.
+      apply (flags_recv m), I.
+    + inversion ER; subst. exact I.
+    + injection ER as ER. replace t' with (fst (h_ack n (tk s))) by (rewrite ER; reflexivity). apply flags_ack, I.
+    + injection ER as ER. replace t' with (fst (h_clear n (tk s))) by (rewrite ER; reflexivity). apply flags_clear, I.
+  - destruct (conn s) as [cn|]; [|discriminate]. destruct (runnable (c_w cn)); [|discriminate].
+    destruct (h_loop (tk s)) as [t' la] eqn:E.
+    assert (I' : flags_inv t') by (replace t' with (fst (h_loop (tk s))) by (rewrite E; reflexivity); apply flags_loop, I).
+    destruct la; inversion St; subst; cbn [tk set_conn bcast set_tk]; auto.
+  - destruct (conn s) as [cn|]; [|discriminate]. destruct (c_rerr cn); [|discriminate].
+    destruct (blocked (c_w cn)); [|discriminate]. unfold conn_end in St.
+    destruct (h_close (tk s)) as [t' b] eqn:E. inversion St; subst. cbn [tk set_conn]. rewrite tk_bcast_if'. cbn [tk set_tk].
+    replace t' with (fst (h_close (tk s))) by (rewrite E; reflexivity). apply flags_close, I.
+  - destruct (conn s) as [cn|]; [|discriminate]. unfold conn_end in St.
+    destruct (h_close (tk s)) as [t' b] eqn:E. inversion St; subst. cbn [tk set_conn]. rewrite tk_bcast_if'. cbn [tk set_tk].
+    replace t' with (fst (h_close (tk s))) by (rewrite E; reflexivity). apply flags_close, I.
+  - destruct body; inversion St; subst; exact I.
+  - destruct (nth_error (sends s) i) as [cl|]; [|discriminate].
+    destruct (s_st cl); try discriminate. destruct (runnable (s_w cl)); [|discriminate].
+    destruct (h_send_iter (tk s) cl) as [[t' b] cl'] eqn:E. inversion St; subst.
+    cbn [tk set_send]. rewrite tk_bcast_if'. cbn [tk set_tk].
+    replace t' with (fst (fst (h_send_iter (tk s) cl))) by (rewrite E; reflexivity). apply flags_send_iter, I.
+  - destruct (nth_error (sends s) i) as [cl|]; [|discriminate].
+    destruct (s_st cl); try discriminate. destruct (blocked (s_w cl)); [|discriminate].
+    destruct (h_send_cancel (tk s) cl) as [t' b] eqn:E. inversion St; subst.
+    cbn [tk set_send]. rewrite tk_bcast_if'. cbn [tk set_tk].
+    replace t' with (fst (h_send_cancel (tk s) cl)) by (rewrite E; reflexivity). apply flags_send_cancel, I.
+  - inversion St; subst; exact I.
+  - destruct (nth_error (recvs s) j) as [cl|]; [|discriminate].
+    destruct (r_st cl); try discriminate. destruct (runnable (r_w cl)); [|discriminate].
+    destruct (h_recv_iter (tk s)) as [t' [m|]] eqn:E; inversion St; subst; cbn [tk set_recv bcast set_tk]; auto.
+    replace t' with (fst (h_recv_iter (tk s))) by (rewrite E; reflexivity). apply flags_recv_iter, I.
+  - destruct (nth_error (recvs s) j) as [cl|]; [|discriminate].
+    destruct (r_st cl); try discriminate. destruct (blocked (r_w cl)); [|discriminate].
+    inversion St; subst; exact I.
+Qed.
+
+Lemma flags_init : flags_inv (tk c_init).
+Proof. split; cbn; auto. Qed.
+
+Lemma run_flags c acts : forall s s' tr, flags_inv (tk s) -> run c s acts = (s', tr) -> flags_inv (tk s').
+Proof.
+  induction acts as [|a acts IH]; intros s s' tr I R; cbn [run] in R.
+  - inversion R; subst; auto.
+  - destruct (exec c s a) as [s1 o1] eqn:E1. destruct (run c s1 acts) as [s2 o2] eqn:E2. inversion R; subst.
+    eapply IH; [|exact E2]. unfold exec in E1.
+    destruct (step c s a) as [[sx ox]|] eqn:Es; inversion E1; subst; auto.
+    eapply step_flags; eauto.
+Qed.
+
+(* ------------------------------------------------------------------ *)
+(* counting                                                            *)
+
+Lemma count_upd {A} (f : A -> bool) i (x y : A) l :
+  nth_error l i = Some y ->
+  (count f (upd_nth i x l) + b2n (f y) = count f l + b2n (f x))%nat.
+Proof.
+  revert i; induction l as [|z l IH]; intros [|i] H; cbn in *; try discriminate.
+  - inversion H; subst. lia.
+  - specialize (IH i H). lia.
+Qed.
+
+Lemma count_wake_s_running l : count s_running (map wake_s l) = count s_running l.
+Proof. induction l; cbn; auto. Qed.
+Lemma count_wake_r_running l : count r_running (map wake_r l) = count r_running l.
+Proof. induction l; cbn; auto. Qed.
+
+Lemma nth_wake_s l i cl : nth_error l i = Some cl -> nth_error (map wake_s l) i = Some (wake_s cl).
+Proof. intros H. rewrite nth_error_map, H. reflexivity. Qed.
+Lemma nth_wake_r l i cl : nth_error l i = Some cl -> nth_error (map wake_r l) i = Some (wake_r cl).
+Proof. intros H. rewrite nth_error_map, H. reflexivity. Qed.
+
+(* ------------------------------------------------------------------ *)
+(* what each internal region does to the measure                       *)
+
+Definition parts (t : tracker) : nat := (out_part t + recv_part t)%nat.
+
+Lemma loop_progress t t' la :
+  flags_inv t -> h_loop t = (t', la) ->
+  (la = LNone /\ t' = t) \/ (la <> LNone /\ (parts t' < parts t)%nat).
+Proof.
+  intros [A B] E. unfold h_loop, parts, out_part, recv_part in *.
+  repeat match type of E with context [match ?x with _ => _ end] => destruct x eqn:? end;
+    inversion E; subst; cbn; try (left; split; reflexivity);
+    right; (split; [discriminate|]); rewrite ?Heqo0, ?Heqo1, ?Heqb, ?Heqb0, ?Heqb1; cbn;
+    try lia;
+    repeat match goal with |- context [match ?x with _ => _ end] => destruct x eqn:?; cbn end; try lia;
+    try (destruct (t_sent t); cbn in *; try discriminate; lia).
+Qed.
+
+Lemma send_iter_progress t cl t' b cl' :
+  flags_inv t -> h_send_iter t cl = (t', b, cl') ->
+  s_st cl' = SOk \/
+  (s_st cl' = SRun /\ (parts t' < parts t)%nat) \/
+  (s_st cl' = SRun /\ b = false /\ t' = t /\ s_w cl' = WWait).
+Proof.
+  intros [A B] E. unfold h_send_iter in E.
+  repeat match type of E with context [match ?x with _ => _ end] => destruct x eqn:? end;
+    inversion E; subst; cbn;
+    try (left; reflexivity); try (right; right; repeat split; reflexivity).
+  all: right; left; split; auto.
+  all: destruct (A eq_refl) as (A1 & A2 & A3).
+  all: unfold parts, out_part, recv_part; cbn; rewrite ?Heqo0, ?A1, ?A3; cbn; lia.
+Qed.
+
+Lemma recv_iter_progress t t' r :
+  h_recv_iter t = (t', r) -> (r = None /\ t' = t) \/ (exists m, r = Some m).
+Proof.
+  unfold h_recv_iter. destruct (t_recv t); [destruct (t_proc t)|]; intros E; inversion E; subst; eauto.
+Qed.
+
+Ltac lex :=
+  unfold parts in *; cbn [b2n] in *;
+  first [ left; lia
+        | right; split; [lia|];
+          first [ left; lia
+                | right; split; [lia|];
+                  first [ left; lia | right; split; [lia|lia] ] ] ].
+
+Theorem internal_decreases : forall c s a s' o,
+  flags_inv (tk s) -> internal a = true -> step c s a = Some (s', o) -> lt4 (mu s') (mu s).
+Proof.
+  intros c s a s' o I Hin St. destruct a; try discriminate; cbn [step] in St.
+  - (* ALoop *)
+    destruct (conn s) as [cn|] eqn:Ec; [|discriminate].
+    destruct (runnable (c_w cn)) eqn:Er; [|discriminate].
+    destruct (h_loop (tk s)) as [t' la] eqn:E.
+    destruct (loop_progress _ _ _ I E) as [[-> ->]|[Hne Hlt]].
+    + inversion St; subst. unfold mu, lt4. cbn [conn set_conn sends recvs tk]. rewrite Ec, Er.
+      cbn [c_w runnable b2n]. lex.
+    + assert (St' : s' = set_conn (Some (mkConn WReady (c_rerr cn))) (bcast (set_tk t' s))).
+      { destruct la; try congruence; inversion St; reflexivity. }
+      subst s'. unfold mu, lt4. cbn [conn set_conn sends recvs tk bcast set_tk]. rewrite Ec.
+      rewrite count_wake_s_running, count_wake_r_running. lex.
+  - (* ALoopErr *)
+    destruct (conn s) as [cn|] eqn:Ec; [|discriminate].
+    destruct (c_rerr cn); [|discriminate]. destruct (blocked (c_w cn)); [|discriminate].
+    unfold conn_end in St. destruct (h_close (tk s)) as [t' b]. inversion St; subst.
+    unfold mu, lt4. cbn [conn set_conn]. rewrite Ec. left. lia.
+  - (* ASendIter *)
+    destruct (nth_error (sends s) i) as [cl|] eqn:En; [|discriminate].
+    destruct (s_st cl) eqn:Est; try discriminate.
+    destruct (runnable (s_w cl)) eqn:Er; [|discriminate].
+    destruct (h_send_iter (tk s) cl) as [[t' b] cl'] eqn:E. inversion St; subst. clear St.
+    assert (Hrun_cl : s_running cl = true) by (unfold s_running; rewrite Est; reflexivity).
+    set (L := sends (bcast_if b (set_tk t' s))).
+    assert (HL : exists y, nth_error L i = Some y /\ s_running y = true /\ count s_running L = count s_running (sends s)).
+    { unfold L. destruct b; cbn.
+      - exists (wake_s cl). split; [apply nth_wake_s, En|]. split; [exact Hrun_cl|apply count_wake_s_running].
+      - exists cl. auto. }
+    destruct HL as (y & Hy & Hry & HcL).
+    assert (HR : count r_running (recvs (bcast_if b (set_tk t' s))) = count r_running (recvs s)).
+    { destruct b; cbn; auto. apply count_wake_r_running. }
+    assert (HC : match conn (bcast_if b (set_tk t' s)) with Some _ => 1%nat | None => 0%nat end =
+                 match conn s with Some _ => 1%nat | None => 0%nat end).
+    { destruct b; cbn; destruct (conn s); reflexivity. }
+    pose proof (count_upd s_running i cl' y L Hy) as Hcu. rewrite Hry in Hcu.
+    destruct (send_iter_progress _ _ _ _ _ I E) as [Hok|[[Hrun Hlt]|(Hrun & Hb & Ht & Hw)]].
+    + assert (H : s_running cl' = false) by (unfold s_running; rewrite Hok; reflexivity).
+      rewrite H in Hcu. unfold mu, lt4. cbn [conn sends recvs set_send tk]. fold L. rewrite HC, HR. lex.
+    + assert (H : s_running cl' = true) by (unfold s_running; rewrite Hrun; reflexivity).
+      rewrite H in Hcu. unfold mu, lt4. cbn [conn sends recvs set_send tk]. fold L.
+      rewrite HC, HR, tk_bcast_if'. cbn [tk set_tk]. lex.
+    + subst b t'. cbn [bcast_if] in *.
+      assert (H : s_running cl' = true) by (unfold s_running; rewrite Hrun; reflexivity).
+      rewrite H in Hcu. unfold L in *. cbn [sends set_tk] in *.
+      pose proof (count_upd s_ready i cl' cl (sends s) En) as Hcr.
+      assert (H0 : s_ready cl = true) by (unfold s_ready; rewrite Hrun_cl, Er; reflexivity).
+      assert (H1 : s_ready cl' = false) by (unfold s_ready; rewrite Hw; cbn; apply andb_false_r).
+      rewrite H0, H1 in Hcr.
+      unfold mu, lt4. cbn [conn sends recvs set_send set_tk tk]. lex.
+  - (* ARecvIter *)
+    destruct (nth_error (recvs s) j) as [cl|] eqn:En; [|discriminate].
+    destruct (r_st cl) eqn:Est; try discriminate.
+    destruct (runnable (r_w cl)) eqn:Er; [|discriminate].
+    assert (Hrun_cl : r_running cl = true) by (unfold r_running; rewrite Est; reflexivity).
+    destruct (h_recv_iter (tk s)) as [t' [m|]] eqn:E; inversion St; subst; clear St.
+    + pose proof (count_upd r_running j (mkR WReady (RGot m)) (wake_r cl) (map wake_r (recvs s)) (nth_wake_r _ _ _ En)) as Hcu.
+      assert (H : r_running (wake_r cl) = true) by exact Hrun_cl.
+      rewrite H in Hcu. change (r_running (mkR WReady (RGot m))) with false in Hcu.
+      rewrite count_wake_r_running in Hcu.
+      assert (HC : match option_map wake_c (conn s) with Some _ => 1%nat | None => 0%nat end =
+                   match conn s with Some _ => 1%nat | None => 0%nat end) by (destruct (conn s); reflexivity).
+      unfold mu, lt4. cbn [conn sends recvs set_recv bcast set_tk tk].
+      rewrite count_wake_s_running, HC. lex.
+    + destruct (recv_iter_progress _ _ _ E) as [[_ ->]|[m Hm]]; [|discriminate].
+      pose proof (count_upd r_running j (mkR WWait RRun) cl (recvs s) En) as Hcu.
+      pose proof (count_upd r_ready j (mkR WWait RRun) cl (recvs s) En) as Hcr.
+      assert (H : r_ready cl = true) by (unfold r_ready; rewrite Hrun_cl, Er; reflexivity).
+      rewrite Hrun_cl in Hcu. rewrite H in Hcr.
+      change (r_running (mkR WWait RRun)) with true in Hcu. change (r_ready (mkR WWait RRun)) with false in Hcr.
+      unfold mu, lt4. cbn [conn sends recvs set_recv tk]. lex.
+Qed.
+
+(* in every reachable state *)
+Theorem reachable_internal_decreases : forall c acts s tr a s' o,
+  run c c_init acts = (s, tr) ->
+  internal a = true -> step c s a = Some (s', o) -> lt4 (mu s') (mu s).
+Proof.
+  intros c acts s tr a s' o R Hi St.
+  eapply internal_decreases; eauto. eapply run_flags; [apply flags_init|exact R].
+Qed.
